@@ -175,11 +175,18 @@ pub fn stress(dir: &str, output: &str, seed: u64, thorough: bool) -> Value {
 	let mut lookups = 0u64;
 	// the same containers once more through the HTTP data reader (range requests against a local server)
 	let httpd = crate::httpd::RangeServer::start(Path::new(dir));
-	for (src, ext) in [("versatiles", "versatiles"), ("pmtiles", "pmtiles"), ("tar", "tar"), ("versatiles_http", "versatiles"), ("pmtiles_http", "pmtiles")] {
+	for (src, ext) in [("versatiles", "versatiles"), ("pmtiles", "pmtiles"), ("tar", "tar"), ("pmtiles_leaves", "pmtiles"), ("versatiles_http", "versatiles"), ("pmtiles_http", "pmtiles")] {
 		let path = Path::new(dir).join(format!("c13.{ext}"));
 		let _ = std::fs::remove_file(&path);
-		let mut mem = MemReader::new("c13", TileFormat::PBF, TileCompression::Uncompressed, tiles.clone());
-		rt.block_on(write_to_filename(&mut mem, path.to_str().unwrap())).unwrap();
+		if src == "pmtiles_leaves" {
+			// a PMTiles file whose entries live in many small LEAF directories (the writer only produces them for > 16 k
+			// tiles): concurrent callers then work in different leaves
+			let raw: Vec<crate::indep::Tile> = tiles.iter().map(|(c, b)| (c.z, c.x, c.y, b.as_slice().to_vec())).collect();
+			std::fs::write(&path, crate::indep::encode_pmtiles("pbf", "none", &raw, None, &crate::indep::PmChoices { run_lengths: false, share: false, leaf_levels: 1, leaf_size: 5, mixed_root: false, internal: "gzip", unclustered: false, type_unknown: false })).unwrap();
+		} else {
+			let mut mem = MemReader::new("c13", TileFormat::PBF, TileCompression::Uncompressed, tiles.clone());
+			rt.block_on(write_to_filename(&mut mem, path.to_str().unwrap())).unwrap();
+		}
 		let location = if src.ends_with("_http") { format!("http://127.0.0.1:{}/c13.{ext}", httpd.port) } else { path.to_str().unwrap().to_string() };
 		let reader: Arc<Box<dyn TilesReaderTrait>> = Arc::new(rt.block_on(get_reader(&location)).unwrap());
 		// sequential reference on a FRESH reader instance (so caches start cold in the concurrent phase too)
@@ -203,7 +210,9 @@ pub fn stress(dir: &str, output: &str, seed: u64, thorough: bool) -> Value {
 				let mut r = Rng::new(seed ^ 0x100c ^ t as u64);
 				hs.push(tokio::spawn(async move {
 					let mut evs = vec![];
-					for _ in 0..(rounds * coords.len() / 16).max(20) {
+					// (many more lookups where the per-lookup state is richest: leaf directories)
+					let per_task = if src == "pmtiles_leaves" { 4000 * rounds } else { (rounds * coords.len() / 16).max(20) };
+					for _ in 0..per_task {
 						let c = *r.pick(&coords);
 						let h = match reader.get_tile_data(&c).await {
 							Ok(Some(b)) => h31(b.as_slice()) as i64,
